@@ -297,5 +297,8 @@ PROPS["C18"] = {
     "scope": "lib+tools",
 }
 
+PROPS["C13"]["rules"] = PROPS["C13"]["rules"] + [rules_handles.rule_slot_table_copy]
+PROPS["C13"]["explanation"] += " (SLOTCOPY) copies out of the SD file table `_cdfs`, whose positions are the SD file ids, preserve positions."
+
 NOT_APPLICABLE = {}
 
